@@ -17,6 +17,12 @@ def tokens(style):
     base = ["a", " ", "\n", "\r", "\r\n", ";", "(", ")", "M3 S1", o]
     if c:
         base.append(c)
+        if len(c) > 1:
+            # pieces of a multi-character closer and the closer nested in itself ("**//"): removing one
+            # occurrence must not assemble another
+            base += [c[0], c[-1], c[0] + c + c[1:]]
+    if len(o) > 1:
+        base += [o[0], o[-1]]
     seen, out = set(), []
     for t in base:
         if t not in seen:
